@@ -50,6 +50,12 @@ Theorem C03_facts_commit :
   same_fn "Keeper.DeleteAccount" /\ same_fn "Keeper.SetAccount" /\ same_fn "Keeper.SetState" /\ same_fn "Keeper.SetCode".
 Proof. vm_compute. repeat split; reflexivity. Qed.
 
+(** big.Int aliasing: no stored balance is updated in place (balance pointers are shared between the
+    previous and the new object of CreateAccount, the journal and the getters), every update stores a
+    fresh big.Int, journal entries keep their own copy *)
+Theorem C03_facts_bigint_aliasing : c03_bigint = model_bigint /\ no_inplace c03_bigint = true.
+Proof. vm_compute. split; reflexivity. Qed.
+
 (** nothing else was extracted / nothing is missing *)
 Theorem C03_facts_match_model : c03_functions = model_functions.
 Proof. vm_compute. reflexivity. Qed.
